@@ -558,7 +558,7 @@ class Interp:
                 return wrap(to_z3(obj.pos)) if not isinstance(obj.pos, int) else obj.pos
             if name == 'xs':
                 return obj.xs
-        if isinstance(obj, (_models.SMap, _models.SIter)):
+        if isinstance(obj, (_models.SMap, _models.SIter, _models.SMapProxy)):
             return SymMethod(obj, name)
 
         if isinstance(obj, SuperProxy):
@@ -812,6 +812,10 @@ class Interp:
                 return wrap(z3.Or(*hits)) if hits else False
             return self._eq_resolved(a, b)
         from . import models as _m
+        if isinstance(a, _m.SMapProxy):
+            a = a.m
+        if isinstance(b, _m.SMapProxy):
+            b = b.m
         if isinstance(a, _m.SMap):
             return a.eq(self, b)
         if isinstance(b, _m.SMap):
@@ -960,7 +964,7 @@ class Interp:
         from . import models as _m
         if isinstance(container, _m.SMap):
             return container.contains(self, x)
-        if isinstance(container, _m.SMapKeys):
+        if isinstance(container, (_m.SMapKeys, _m.SMapProxy)):
             return container.m.contains(self, x)
         if isinstance(container, (list, tuple, set, frozenset)) or isinstance(container, (dict,)) or \
                 type(container).__name__ in ('dict_keys', 'dict_values', 'mappingproxy'):
@@ -1200,7 +1204,7 @@ class Interp:
             obj = self.resolve(obj)
         if isinstance(idx, (SOpt, SChoice)):
             idx = self.resolve(idx)
-        if isinstance(obj, (SStr, SList, models.SMap)) or (isinstance(obj, str) and _slice_sym(idx)):
+        if isinstance(obj, (SStr, SList, models.SMap, models.SMapProxy)) or (isinstance(obj, str) and _slice_sym(idx)):
             return models.sym_getitem(self, obj, idx)
         if isinstance(obj, Opaque):
             return self.reg.call_opaque(self, obj, '__getitem__', [idx], {})
